@@ -14,6 +14,10 @@ IsEvent(k) == l <= NRec /\ Rec[l].ev = k /\ l' = l + 1
 IsOneOf(S) == l <= NRec /\ Rec[l].ev \in S /\ l' = l + 1
 Cur == Rec[l]
 
+(* Verdict of a monitor for one property: no collected triple names it.  The set is also printed,
+   so the driver does not depend on TLC finishing the (long) counterexample listing. *)
+NoneFor(B, p) == IF \A b \in B : b[1] # p THEN TRUE ELSE PrintT(<<"BAD-SET", B>>) /\ FALSE
+
 (* Acceptance: every line was consumed.  TLC's diameter counts the initial state too. *)
 Accepted ==
     LET d == TLCGet("stats").diameter IN
